@@ -49,8 +49,9 @@ fn gen_float_raw(r: &mut Rng) -> f32 {
         _ => f32::from_bits(r.next() as u32),
     }
 }
-pub const NAME_POOL: [&str; 14] = [
+pub const NAME_POOL: [&str; 15] = [
     "a", "b", "x1", "foo", "Var", "BAR_2", "q", "zz", "long-name-with-dashes", "ü", "日本", "a.b", "x(y", "k]",
+    "al pha", // a blank inside: NAME.CAT builds such names
 ];
 pub fn gen_name(r: &mut Rng) -> String {
     r.pick(&NAME_POOL).to_string()
@@ -151,7 +152,8 @@ pub fn print_alike(r: &mut Rng, it: &Item) -> Item {
         Item::Literal { push_type: PushType::Int { val } } => Item::name(val.to_string()),
         Item::Literal { push_type: PushType::Bool { val } } => Item::name(if *val { "TRUE".to_string() } else { "FALSE".to_string() }),
         Item::InstructionMeta { name } => Item::name(name.clone()),
-        Item::Identifier { name } => Item::instruction(name.clone()),
+        // (an instruction name never contains white space: a name built by NAME.CAT has no instruction look-alike)
+        Item::Identifier { name } if !name.chars().any(|c| c.is_whitespace()) => Item::instruction(name.clone()),
         other => other.clone(),
     }
 }
